@@ -35,14 +35,15 @@ def check(ctx):
     ctx.consult('containers/containers.py')
     fi = ctx.repo.func('_TRSTractList._sort_custom')
     env = ctx.fold.func_env(fi)
-    pat, legal, sort_defs = env.get('pat'), env.get('legal_methods'), env.get('sort_defs')
-    if is_unknown(pat) or not isinstance(pat, str):
+    sort_defs = env.get('sort_defs')
+    pat, legal, legal_txt = _key_tables(ctx, fi)
+    if pat is None:
         raise AnalysisError("_sort_custom: key pattern does not fold")
     if is_unknown(sort_defs) or not isinstance(sort_defs, dict):
         raise AnalysisError("_sort_custom: sort_defs does not fold")
     if legal is not None and (is_unknown(legal) or not isinstance(legal, dict)):
         legal = None
-    ctx.attempt(_key_grammar, fi, pat, legal, sort_defs)
+    ctx.attempt(_key_grammar, fi, pat, legal, sort_defs, legal_txt)
     ctx.attempt(_case_discipline, fi)
     ctx.attempt(_defaults, fi, env)
     ctx.attempt(_sign_tables, fi)
@@ -52,7 +53,29 @@ def check(ctx):
     ctx.attempt(forward.check_all, module_suffixes=('containers.containers', 'tract.tract'))
 
 
-def _key_grammar(ctx, fi, pat, legal, sort_defs):
+def _key_tables(ctx, fi):
+    """The key pattern is whatever parse_key full-matches the key against; the
+    table of legal methods is whatever `method in <table>[var]` indexes - both
+    found by use, wherever they are defined (local, class attribute, module)."""
+    pk = ctx.repo.func('_TRSTractList._sort_custom.parse_key')
+    pat = legal = legal_txt = None
+    for c in walk_local(pk.node):
+        if isinstance(c, ast.Call) and isinstance(c.func, ast.Attribute) and c.func.attr in ('fullmatch', 'match', 'search'):
+            cand = c.args[0] if dotted(c.func.value) == 're' and c.args else c.func.value
+            v = common.fold_in_func(ctx, pk, cand)
+            if isinstance(v, str):
+                pat = v
+            elif hasattr(v, 'pattern') and isinstance(getattr(v, 'pattern'), str):
+                pat = v.pattern
+        if isinstance(c, ast.Compare) and len(c.ops) == 1 and isinstance(c.ops[0], (ast.In, ast.NotIn)) \
+                and isinstance(c.comparators[0], ast.Subscript) and norm(c.left) == 'method':
+            v = common.fold_in_func(ctx, pk, c.comparators[0].value)
+            if isinstance(v, dict):
+                legal, legal_txt = v, norm(c.comparators[0].value)
+    return pat, legal, legal_txt
+
+
+def _key_grammar(ctx, fi, pat, legal, sort_defs, legal_txt=None):
     gf = rx.groups(pat, 0)
     for g in ('var', 'method', 'rev'):
         if g not in gf:
@@ -80,7 +103,7 @@ def _key_grammar(ctx, fi, pat, legal, sort_defs):
     for r_ in raises:
         for _e, txt, pol in literals(guards(r_)):
             t = txt.replace('"', "'")
-            if t == 'method in legal_methods[var]' and not pol and legal is not None:
+            if legal is not None and t == f"method in {legal_txt}[var]".replace('"', "'") and not pol:
                 accepted = {f"{v}.{m}" for v, ms in legal.items() for m in ms if m is not None}
                 how = 'legal_methods'
                 ctx.check(all(None in ms or 'num' in ms for ms in legal.values()), 'TBL',
